@@ -3,6 +3,7 @@ Refine/PublicLemmas.lean — helper definitions and lemmas for task RP20 (`Refin
 `StateTraj.estimate_markov_model` (`Gen/StateTrajEst.lean`) and `LumpedStateTraj.estimate_markov_model` (`Gen/LumpedEst.lean`)
 evaluated on the object state the constructors leave (rank trajectories, ascending state lists, first-occurrence assignment).
 `microT` is the micro transition matrix (the `T` of `Msm.estimate`), `assignIdx` the macro index of every micro state.
+Last section: an ergodic micro model has unit row sums and the model's solver finds its stationary vector (`micro_stationary`).
 -/
 import MsmVerif.Gen.StateTrajEst
 import MsmVerif.Gen.LumpedEst
@@ -13,6 +14,7 @@ import MsmVerif.Refine.HS
 import MsmVerif.Refine.Accessors
 import MsmVerif.Props.C01
 import MsmVerif.Props.C03
+import MsmVerif.Lemmas.MaskClasses
 
 namespace MsmVerif.Refine.Public
 open MsmVerif MsmVerif.Gen
@@ -222,5 +224,74 @@ theorem est_on_rank_perm (ts : Trajs) (perm : List Int) (hperm : perm.length = (
   show (Gen.MsmEstimate.estimate_markov_model_perm (rankTrajs ts) (lag : Int) ((perm.length : Nat) : Int) perm flag) = _
   rw [hperm, Small.estimate_markov_model_perm_refines _ lag _ hlag (rank_range ts)]
   rfl
+
+/-! ### an ergodic micro model has unit row sums and a stationary vector -/
+
+theorem microT_eq_specT {ts : Trajs} (hg : LabelGuard ts) (lag : Nat) (hlag : 1 ≤ lag) : microT ts lag = Msm.specT ts lag := by
+  have h := C01.model_meets_spec ts lag hlag hg
+  rw [estimate_eq hg, Except.ok.injEq, Prod.mk.injEq, Prod.mk.injEq] at h
+  exact h.2.1
+
+theorem specT_nonneg (ts : Trajs) (lag : Nat) : Linalg.NonNeg (Msm.specT ts lag) := by
+  intro r hr x hx
+  unfold Msm.specT at hr
+  obtain ⟨a, -, rfl⟩ := List.mem_map.mp hr
+  obtain ⟨b, -, rfl⟩ := List.mem_map.mp hx
+  exact Msm.T_nonneg ts lag a b
+
+theorem specT_row (ts : Trajs) (lag : Nat) : ∀ r ∈ Msm.specT ts lag, r.sum = 1 ∨ ∀ x ∈ r, x = 0 := by
+  intro r hr
+  unfold Msm.specT at hr
+  obtain ⟨a, -, rfl⟩ := List.mem_map.mp hr
+  by_cases h0 : Msm.rowTotal ts lag a = 0
+  · right
+    intro x hx
+    obtain ⟨b, -, rfl⟩ := List.mem_map.mp hx
+    unfold Msm.T
+    rw [if_pos h0]
+  · left
+    rw [C01.row_sum, if_neg h0]
+
+theorem first_step {b : List (List Bool)} {k i j : Nat} (h : Linalg.Walk b (k + 1) i j) : ∃ l, Linalg.bent b i l = true := by
+  induction k generalizing j with
+  | zero =>
+    obtain ⟨l, hl, hb⟩ := h
+    have : i = l := hl
+    subst this
+    exact ⟨j, hb⟩
+  | succ k ih =>
+    obtain ⟨l, hl, -⟩ := h
+    exact ih hl
+
+theorem rows_of_ergodic {T : Linalg.Mat} (p : Linalg.NonNeg T) (hrow : ∀ r ∈ T, r.sum = 1 ∨ ∀ x ∈ r, x = 0)
+    (h : Linalg.isErgodic T = true) : ∀ r ∈ T, r.sum = 1 := by
+  intro r hr
+  rcases hrow r hr with h1 | h0
+  · exact h1
+  · exfalso
+    obtain ⟨i, hi, rfl⟩ := List.getElem_of_mem hr
+    have hn := Linalg.two_le_of_isTmat (Linalg.isTmat_of_isErgodic h)
+    have hw := Linalg.walk_of_isErgodic p h hi (j := 0) (by omega)
+    obtain ⟨l, hl⟩ := first_step (k := (T.length - 1) * (T.length - 1)) hw
+    rw [Linalg.bent_support] at hl
+    have hne : Linalg.entry T i l ≠ 0 := by simpa using hl
+    apply hne
+    unfold Linalg.entry
+    have hrow_i : T.getD i [] = T[i] := by
+      rw [List.getD_eq_getElem?_getD, List.getElem?_eq_getElem hi, Option.getD_some]
+    rw [hrow_i, List.getD_eq_getElem?_getD]
+    by_cases hl' : l < T[i].length
+    · rw [List.getElem?_eq_getElem hl', Option.getD_some]
+      exact h0 _ (List.getElem_mem _)
+    · rw [List.getElem?_eq_none (by omega)]
+      rfl
+
+/-- an ergodic micro model has unit row sums and a stationary vector -/
+theorem micro_stationary {ts : Trajs} (hg : LabelGuard ts) (lag : Nat) (hlag : 1 ≤ lag)
+    (h : Linalg.isErgodic (microT ts lag) = true) :
+    (∀ r ∈ microT ts lag, r.sum = 1) ∧ ∃ pi, Linalg.stationary (microT ts lag) = some pi := by
+  rw [microT_eq_specT hg lag hlag] at h ⊢
+  have hrows := rows_of_ergodic (specT_nonneg ts lag) (specT_row ts lag) h
+  exact ⟨hrows, Linalg.stationary_of_isErgodic (specT_nonneg ts lag) hrows h⟩
 
 end MsmVerif.Refine.Public
